@@ -34,7 +34,10 @@ def decl_specs(tier):
         specs.append({'names': [c, 'i3'], 'wrapper': 'a', 'opts': {'generate_for_pack': False, 'generate_for_unpack': False}})
     for c in ('i1', 'i3', 'dn', 'm0', 'b35', 'sn', 'su', 'sr', 'o1', 'r1', 'rs', 'sdn'):
         specs.append({'names': [c], 'wrapper': 'd'})
-    specs.extend(alphabet.boundary_specs())
+    for sp in alphabet.boundary_specs() + alphabet.structure_specs():
+        # the same by-design exclusions (an absolute alignment of the holder makes the parse depend on where it starts)
+        if not (alphabet.scan(alphabet.make_decl(sp['names'], sp.get('opts'), sp.get('wrapper', 'a'), wopts=sp.get('wopts'))) & EXCLUDED_FEATURES):
+            specs.append(sp)
     return specs
 
 
